@@ -134,8 +134,8 @@ def completed(st, obj):
         for name, v in list(o.fields.items()):
             if isinstance(v, tuple) and v and v[0] == 'obj' and v[1] in s2.heap:
                 w = s2.heap[v[1]]
-                if (w.cls.startswith('ipr::util::ref<') or w.cls.startswith('ipr::Optional<')) and w.fields.get('ptr') == NULL:
-                    w.fields['ptr'] = ('addr', ('param', 900 + 20 * depth + len(name)))
+                if (w.cls.startswith('ipr::util::ref<') or w.cls.startswith('ipr::Optional<')) and len(w.fields) == 1 and list(w.fields.values())[0] == NULL:
+                    w.fields[list(w.fields)[0]] = ('addr', ('param', 900 + 20 * depth + len(name)))
                     changed[0] = True
                 else:
                     fill(v, path + (name,), depth + 1)
